@@ -9,8 +9,7 @@ import "sync"
 // A deterministic simulator installs functions in VerifHooks to own the
 // nondeterministic choices of the router: which request proceeds (Yield), which
 // pooled context a request receives (PoolGet/PoolPut), and the iteration order
-// of the two map ranges whose order can reach an observable result (Order,
-// Actions). Every hook left nil passes through, so a verif build without a
+// of the map range whose order can reach an observable result (Order). Every hook left nil passes through, so a verif build without a
 // simulator behaves like the normal build.
 
 // VerifHooks holds the installed simulator callbacks.
@@ -25,8 +24,6 @@ var VerifHooks struct {
 	PoolPut func(pool any, x any)
 	// Order may permute items (it must return a permutation of them).
 	Order func(site string, items []string) []string
-	// Actions splits the REST action table into batches that are registered in order.
-	Actions func(m map[string][]string) []map[string][]string
 }
 
 func verifYield(site string) {
@@ -148,13 +145,6 @@ func verifOrder(site string, items []string) []string {
 		return h(site, items)
 	}
 	return items
-}
-
-func verifActionBatches(m map[string][]string) []map[string][]string {
-	if h := VerifHooks.Actions; h != nil {
-		return h(m)
-	}
-	return []map[string][]string{m}
 }
 
 // VerifCache returns the router's route cache (nil when caching is off or no route was added).
